@@ -112,7 +112,7 @@ class C04(core.Check):
                                        'means:align', 'means:created-zone', 'order:ascending', 'order:descending',
                                        'order:interleaved', 'overlap:non-adjacent', 'expect:REJECT', 'expect:ACCEPT',
                                        'output:bin', 'output:nobin', 'output:both', 'window-excludes-the-overlap',
-                                       'means:macro-with-non-byte-steps']}
+                                       'means:macro-with-non-byte-steps', 'means:global-relative-org']}
 
     def build(self, rng, items, means_list=None, order=None, mute=None, out_mode=None):
         """items: [(addr, len)]"""
@@ -265,6 +265,25 @@ class C04(core.Check):
                                         'intervals': [[a0, sz], [other, 1]], 'out_mode': 'bin'},
                                'tags': sorted({'means:macro-with-non-byte-steps', 'expect:' + ('REJECT' if overlap else 'ACCEPT'), 'output:bin',
                                                'order:ascending' if (other >= a0) == (order == 'macro-first') else 'order:descending'})}
+        # GLOBAL redefined with a non-zero start: '.org v "GLOBAL"' is v above that start, '.org a' is absolute
+        for gs in (0x100, 0x10):
+            isa_g = gen_prog.layout_isa(16, global_zone=(gs, 0x7FFF), origin=gs)
+            fn_g, text_g = isamod.render_isa(isa_g, 'json')
+            for v in (0x20, 3):
+                for d_ in (-1, 0, 1, 2):
+                    for order in ('rel-first', 'abs-first'):
+                        rel = [f'.org {v} "GLOBAL"', '.byte $A1, $A2']
+                        ab_ = [f'.org {gs + v + d_}', '.byte $B1']
+                        lines_ = (rel + ab_) if order == 'rel-first' else (ab_ + rel)
+                        overlap = 0 <= d_ <= 1
+                        M_ = {gs + v: 0xA1, gs + v + 1: 0xA2, gs + v + d_: 0xB1}
+                        end_ = gs + v + 4
+                        yield {'runs': [{'files': {fn_g: text_g, 'p.asm': '\n'.join(lines_) + '\n'},
+                                         'argv': ['compile', '-c', fn_g, 'p.asm', '-o', 'out.bin', '-e', str(end_)],
+                                         'probes': ['steps'], 'step_limit': 300000}],
+                               'meta': {'kind': 'REJECT' if overlap else 'ACCEPT', 'M': {str(k_): x_ for k_, x_ in M_.items()}, 'end': end_,
+                                        'intervals': [[gs + v, 2], [gs + v + d_, 1]], 'out_mode': 'bin'},
+                               'tags': sorted({'means:global-relative-org', 'expect:' + ('REJECT' if overlap else 'ACCEPT'), 'output:bin'})}
         n = 400 if tier == 'quick' else 12000
         for i in range(n):
             rng = core.rng_for(seed, self.pid, 'rand', i)
